@@ -517,6 +517,10 @@ func (g *progGen) failingForm() string {
 		cands = append(cands, "(struct Dog0 [(field Name: string e:0) (field y: nosuchtype e:1)])", "(struct Dog1 [(field y: nosuchtype)])", "(struct Dog0 [(field x: 5)])", "(struct Dog1 [(field 5)])", "(struct Dog0 [(field Name: string e:0) (field)])", "(struct Dog0 [5])",
 			"(interface Drv0 [(func bad [a:nosuchtype] [])])", "(var v0 nosuchtype)", "(func fn0 [a:nosuchtype] [n:int64] (return 1))",
 			"(method [p: (* Dog0)] bark0 [a:nosuchtype] [n:int64])", "(defmap ranch0 1 2)")
+		if g.decls {
+			// ill-typed writes to declared records that earlier forms may have made (if not: still a failing form)
+			cands = append(cands, "(hset pp0 Num: \"bad\")", "(hset pp1 Num: \"bad\")", "{pq0.Num = \"s\"}", "(set pq1.Num \"s\")", "(hset pp0 Zed: 1)", "(hset pq0 Num: [1])")
+		}
 		if g.havePkg {
 			cands = append(cands, "(set pk0.secret 5)", "{pk0.secret = 6}", "(def pk0 (package \"pk0\" { secret := 2; (defn Get [] (let)) }))", "(pk0.hidden)")
 		}
